@@ -128,6 +128,7 @@ Record case := mkH {
   h_msgs : list bytes;                 (* the client's messages; its stream is their concatenation *)
   h_items : list item;                 (* how it writes the stream and when it waits for replies *)
   h_replies : list (bytes * list N);   (* backend reply to the k-th request it receives, with its write sizes *)
+  h_closes : list bool;                (* the backend closes (or resets) its connection after the k-th reply *)
   h_breqs : list sreq;                 (* observed: requests the backend received *)
   h_bconns : N; h_bgarbage : bool; h_bpeers : bool;
   h_cresps : list sresp;               (* observed: replies the client parsed *)
@@ -167,7 +168,7 @@ Fixpoint all2 {A B} (f : A -> B -> bool) (a : list A) (b : list B) : bool :=
 
 Definition model_run (c : case) : st * endk :=
   run (citems (h_items c) (concat (h_msgs c)))
-      (st0 (map (fun r => cut (snd r) (fst r)) (h_replies c))).
+      (st0c (map (fun r => cut (snd r) (fst r)) (h_replies c)) (h_closes c)).
 
 Definition ev_matches (m : sem_req) (e : sevent) : bool :=
   eqb_bytes (r_method m) (e_method e) && eqb_bytes (r_target m) (e_url e) &&
@@ -183,7 +184,10 @@ Definition agrees (c : case) : bool :=
   let n := length fwd in
   all2 resp_matches (rev (s_del s)) (h_cresps c) &&
   negb (h_cgarbage c) &&
-  all2 ev_matches fwd (h_events c) &&
+  (all2 ev_matches fwd (h_events c) ||
+   (* the request after which the proxy finds the backend gone: the event is sent once the request
+      has been written, which on a connection the peer has closed succeeds or not (timing) *)
+   (match e with EBackendClosed => all2 ev_matches fwd (removelast (h_events c)) | _ => false end)) &&
   match partial_forward s e with
   | None =>
       (all2 req_matches fwd (h_breqs c) ||
@@ -271,7 +275,7 @@ Definition default_resp : bytes := match DEFAULT_REPLY with x :: _ => x | [] => 
 
 (* walk the intended requests against the observations; [stray] = an earlier intended
    exchange was HEAD with a chunked reply *)
-Fixpoint walk (ls wf : bool) (reqs : list sem_req) (reps : list (bytes * list N))
+Fixpoint walk (ls wf : bool) (closes : list bool) (reqs : list sem_req) (reps : list (bytes * list N))
               (breqs : list sreq) (cresps : list sresp) (stray : bool) : list N :=
   match reqs with
   | [] => match breqs with
@@ -299,7 +303,9 @@ Fixpoint walk (ls wf : bool) (reqs : list sem_req) (reps : list (bytes * list N)
                          then []
                          else if resp_matches (reser_resp p) a then [SIG_CC_ADDED]
                          else [SIG_REPLY_CHANGED])
-                     ++ walk ls wf reqs' (tl reps) breqs' cresps' stray'
+                     ++ (if match closes with b :: _ => b | [] => false end
+                         then []        (* the backend closed its connection after this reply: no requirement for what the client sends next *)
+                         else walk ls wf (tl closes) reqs' (tl reps) breqs' cresps' stray')
               end
           end
       end
@@ -335,12 +341,12 @@ Definition ev_ok (q : sreq) (e : sevent) : bool :=
 Definition case_sigs (c : case) : list N :=
   let reqs := intended_prefix (h_msgs c) in
   let wf := (length reqs =? length (h_msgs c))%nat in
-  walk (lockstep c) wf reqs (h_replies c) (h_breqs c) (h_cresps c) false
+  walk (lockstep c) wf (h_closes c) reqs (h_replies c) (h_breqs c) (h_cresps c) false
   ++ (if h_cgarbage c then [if any_stray reqs (h_replies c) then SIG_STRAY_AFTER_HEAD else SIG_CLIENT_GARBAGE] else [])
   ++ (if all2 ev_ok (firstn (length (h_events c)) (h_breqs c)) (firstn (length (h_breqs c)) (h_events c)) &&
          ((length (h_events c) =? length (h_breqs c))%nat
           || (h_bgarbage c && (S (length (h_events c)) =? length (h_breqs c))%nat)     (* a request cut short by the client is not recorded *)
-          || (negb (replies_exact reqs (h_replies c)) && (length (h_events c) =? S (length (h_breqs c)))%nat))
+          || ((negb (replies_exact reqs (h_replies c)) || existsb (fun b => b) (h_closes c)) && (length (h_events c) =? S (length (h_breqs c)))%nat))
                       (* a backend that writes more than the reply: the proxy may give up and close before the backend has read the last request *)
       then [] else [SIG_EVENT])
   ++ (if h_bgarbage c && wf then [SIG_BACKEND_GARBAGE] else [])
@@ -401,6 +407,8 @@ Definition SIG_DIALS := 5%N.            (* more than one backend connection for 
 Definition SIG_DNS_NO_EVENT := 6%N.     (* dns-proxy relayed a datagram that is not a DNS message without recording it / its payload (repaired: ca56d6d) *)
 Definition SIG_DNS_TCP := 7%N.          (* dns-proxy over a stream: a length-framed query or answer is not relayed whole (repaired: 4e8ef85) *)
 
+Definition SIG_DGRAM_CUT := 8%N.        (* a datagram longer than the server's 1024-byte peek, on a port shared with a detector service: only the peeked part is relayed *)
+
 Definition wrapped (k : conn_kind) : bool := match k with KTimeout _ => true | _ => false end.
 
 (* the property: the backend receives the client's bytes, the client the backend's
@@ -431,7 +439,9 @@ Definition case_sigs (c : case) : list N :=
          then (match w_svc c with SCopy => SIG_COPY_NOTHING | SDns => SIG_DNS_NOTHING end)
          else SIG_CHANGED]
       else
-        (if eqb_bytes (o_backend c) sent && eqb_bytes (o_client c) reply then [] else [SIG_CHANGED])
+        (if eqb_bytes (o_backend c) sent && eqb_bytes (o_client c) reply then []
+         else if datagram && has_peek (w_kind c) && eqb_bytes (o_backend c) (firstn PEEK sent) && eqb_bytes (o_client c) reply
+              then [SIG_DGRAM_CUT] else [SIG_CHANGED])
         ++ (if (o_events c =? 1)%N && o_evpayload c then []
             else [match w_svc c with SDns => if w_parses c then SIG_EVENT else SIG_DNS_NO_EVENT | _ => SIG_EVENT end])
         ++ (if (o_dials c <=? 1)%N then [] else [SIG_DIALS])
